@@ -1,14 +1,13 @@
-// C13 — tlx::DAryAddressableIntHeap, arity 1..4 (see c13_addressable_heap.hpp for the driver/oracles).
+// C13 — tlx::DAryAddressableIntHeap instantiations of this TU (driver and oracles: c13_addressable_heap.hpp).
+// uint32_t keys for every arity 1..8; uint8_t/uint16_t/uint64_t keys for one arity each (handles_ stores positions
+// as key_type and not_present() is key_type(-1)).
 #include "c13_addressable_heap.hpp"
 
 namespace c13 {
-void register_addr_a(std::vector<Config>& out, bool thorough) {
-    add_addr<uint32_t, 1>(out, thorough, true, 10);
-    add_addr<uint32_t, 2>(out, thorough, true, 20);
-    add_addr<uint32_t, 3>(out, thorough, true, 30);
-    add_addr<uint32_t, 4>(out, thorough, true, 40);
-    // other key types (handles_ stores positions as key_type, not_present() = key_type(-1))
-    add_addr<uint8_t, 2>(out, thorough, false, 20);
-    add_addr<uint64_t, 3>(out, thorough, false, 30);
+void register_addr_1(std::vector<Config>& out, bool thorough) {
+    add_addr<uint32_t, 1>(out, thorough, true);
+    add_addr<uint32_t, 2>(out, thorough, true);
+    add_addr<uint32_t, 3>(out, thorough, true);
+    add_addr<uint8_t, 2>(out, thorough, false);
 }
 }  // namespace c13
